@@ -17,11 +17,11 @@ if ! git apply "$MD/patch.diff" 2>/tmp/seed_$ID.apply.log; then
 fi
 /venv/bin/python "$MD/demo.py" > /tmp/seed_$ID.post.log 2>&1; POST=$?
 /venv/bin/python -m pytest -q -p no:cacheprovider -n 8 --timeout=900 test/ -x --deselect test/examples/test_spectral_mixture_gp_regression.py \
-   --deselect test/kernels/test_spectral_mixture_kernel.py -k "not test_pickle" > /tmp/seed_$ID.tests.log 2>&1; TST=$?
+   --deselect test/kernels/test_spectral_mixture_kernel.py --deselect test/variational/test_natural_variational_distribution.py::TestNatVariational::test_optimization_optimal_error -k "not test_pickle" > /tmp/seed_$ID.tests.log 2>&1; TST=$?
 if grep -q INTERNALERROR /tmp/seed_$ID.tests.log; then
   # pytest-xdist worker start-up flake under load (import deadlock): run again with fewer workers
   /venv/bin/python -m pytest -q -p no:cacheprovider -n 3 --timeout=900 test/ -x --deselect test/examples/test_spectral_mixture_gp_regression.py \
-     --deselect test/kernels/test_spectral_mixture_kernel.py -k "not test_pickle" > /tmp/seed_$ID.tests.log 2>&1; TST=$?
+     --deselect test/kernels/test_spectral_mixture_kernel.py --deselect test/variational/test_natural_variational_distribution.py::TestNatVariational::test_optimization_optimal_error -k "not test_pickle" > /tmp/seed_$ID.tests.log 2>&1; TST=$?
 fi
 SUMMARY=$(tail -1 /tmp/seed_$ID.tests.log)
 cd /; git -C /repo worktree remove --force "$WT"
